@@ -4,6 +4,11 @@ import AfkakProofs.Group.Retry
 import AfkakProofs.Group.Fresh
 import AfkakProofs.Group.Fatal
 import AfkakProofs.Group.Progress
+import AfkakProofs.Group.CoordRefresh
+import AfkakProofs.Group.JoinProgress
+import AfkakProofs.Group.ProgressDrain
+import AfkakProofs.Group.FairReach
+import AfkakProofs.Group.NoCrashStep
 import AfkakProps.Open.C17
 /-!
 # C17 — a started group member always progresses toward stable membership
@@ -12,7 +17,7 @@ All theorems quantify over EVERY configuration and EVERY event list: every finit
 failures at every step of the join protocol and every ordering of replies and timers.
 -/
 namespace Afkak.Props.C17
-open Afkak.Group Afkak.Consts Afkak.Monitor.C17
+open Afkak.Group Afkak.Consts Afkak.Monitor.C17 Afkak.Monitor.C17Coord
 
 /-- no event delivers a non-Kafka error at a point where it escapes `_join_and_sync`
     (coordinator look-up, metadata load, leader partition load) -/
@@ -101,18 +106,54 @@ theorem C17_fatal_surfaces_on_replies (cfg : Cfg) (evs : List Ev) : fatalSurface
 theorem C17_fresh_after_eviction (cfg : Cfg) (evs : List Ev) : freshAfterEviction (toMSteps (run cfg evs)) = true :=
   freshAfterEviction_run cfg evs
 
+/-- The rejoin goes to the CURRENT coordinator (monitor `coordinatorRefreshed` on every model trace):
+    a started, not stopping member that processes a time-out, NotCoordinator or
+    CoordinatorNotAvailable on a join / sync / heartbeat reply or from a consumer invalidates the
+    client's cached coordinator in that step (`reset_consumer_group_metadata`), so the look-up of the
+    rejoin asks the cluster — a coordinator that died without a word never says NotCoordinator. -/
+theorem C17_coordinator_refreshed (cfg : Cfg) (evs : List Ev) : coordinatorRefreshed (toMSteps (run cfg evs)) = true :=
+  coordRefreshed_run cfg evs
+
+/-- … and the source's table says so for each of the three errors, stopping or not. -/
+theorem C17_suspect_table (stopping : Bool) (e : GErr) (h : suspectsCoordinator e = true) :
+    (rejoinRow stopping e).resetMeta = true :=
+  (Afkak.Group.Tables.suspect_resets stopping e h).1
+
+/-- A join in flight always has something to wake it (monitor `joinProgress` on every model trace):
+    whenever a started, not stopping member has its join coroutine alive, one of the coroutine's
+    client requests is outstanding — counted from the observed requests, processed replies and
+    observed cancellations — or a consumer is draining.  The drain half is the CONVERSE drain
+    invariant (`CInv`): while `on_join_prepare` waits, the awaited list is not empty and every awaited
+    shutdown Deferred belongs to a consumer that is still draining; the same for every waiting
+    `ConsumerGroup.stop`; and a coroutine parked behind `_stop_draining` has a `stop()` waiting. -/
+theorem C17_join_progress (cfg : Cfg) (evs : List Ev) : joinProgress (toMSteps (run cfg evs)) = true :=
+  joinProgress_run cfg evs
+
+/-- The member's own machinery never trips over itself (monitor `noInternalError` on every model
+    trace): `Coordinator.stop` never cancels a `_rejoin_wait_dc` that has already fired or been
+    cancelled (`AlreadyCalled` would leave `stop()` failed half-way with `_stopping` set: no leave,
+    `start`'s Deferred never fired — wedged for ever), and `_handle_heartbeat_failure` /
+    `stop()` never stop a heartbeat looper that is not running (its assertion).  The only exception
+    a step raises is the documented `RestartError` of `start()` on a started or stopped member. -/
+theorem C17_no_internal_error (cfg : Cfg) (evs : List Ev) :
+    Afkak.Monitor.C17Crash.noInternalError (toMSteps (run cfg evs)) = true :=
+  Afkak.Group.NoCrash.noInternalError_run cfg evs
+
 /-- the hypothesis of `C17_rejoins_bounded_partial`, a decidable predicate of the STATE the history
-    ends in: started, not stopping, no `stop()` waiting for consumers, the join coroutine not in the
-    middle of `on_join_prepare`, and not idle (a member that wants to rejoin and has no join in flight
-    has a rejoin / retry timer pending — what `C17_never_idle_partial` establishes for every history
-    in which no non-Kafka error escaped the join, and what the F12 state lacks) -/
+    ends in: started, not stopping, no `stop()` waiting for consumers, and not idle (a member that
+    wants to rejoin and has no join in flight has a rejoin / retry timer pending — what
+    `C17_never_idle_partial` establishes for every history in which no non-Kafka error escaped the
+    join, and what the F12 state lacks).  Compared with the full-strength statement
+    (`Open.C17_rejoins_bounded`) the ONLY extra condition is the last conjunct: the known finding. -/
 def eligible (cfg : Cfg) (evs : List Ev) : Bool :=
   let s := final cfg evs
-  s.started && !s.stopping && !s.stopDraining && s.jpc != .prepare && s.jpc != .hang &&
+  s.started && !s.stopping && !s.stopDraining &&
     (!s.rejoinNeeded || s.rejoinD || s.timers.any (fun t => t.kind != .hb))
 
-/-- Bounded rejoin, in model time: once failures cease, an eligible member reaches stable
-    membership (`rejoinNeeded = false`: synced, consumers started, heartbeat running —
+/-- Bounded rejoin, in model time: once failures cease, an eligible member — INCLUDING one in the
+    middle of `on_join_prepare` (the ordinary rebalance state: the continuation first completes every
+    awaited shutdown, which is enabled because each awaited consumer is still draining, `CInv`) —
+    reaches stable membership (`rejoinNeeded = false`: synced, consumers started, heartbeat running —
     `C17_stable_heartbeat`) by a failure-free continuation of at most `6 + #consumers` events; the
     only time that has to pass is the remaining delay of the pending rejoin / coordinator-retry
     timer (whose delay is the documented back-off: `C17_retriable_rejoins`). -/
@@ -121,8 +162,8 @@ theorem C17_rejoins_bounded_partial (cfg : Cfg) (evs : List Ev) (h : eligible cf
       (∀ dt, Ev.advance dt ∈ tail → ∃ t ∈ (final cfg evs).timers, t.kind ≠ .hb ∧
         dt = if (final cfg evs).now < t.due then t.due - (final cfg evs).now else 0) ∧
       (final cfg (evs ++ tail)).rejoinNeeded = false := by
-  simp only [eligible, Bool.and_eq_true, Bool.not_eq_true', bne_iff_ne, ne_eq, Bool.or_eq_true] at h
-  obtain ⟨⟨⟨⟨⟨h2, h3⟩, h4⟩, h5⟩, h6⟩, h7⟩ := h
+  simp only [eligible, Bool.and_eq_true, Bool.not_eq_true', Bool.or_eq_true] at h
+  obtain ⟨⟨⟨h2, h3⟩, h4⟩, h7⟩ := h
   have hb : Busy (final cfg evs) := by
     intro _ _ hn hrd
     rcases h7 with (x | x) | x
@@ -130,8 +171,44 @@ theorem C17_rejoins_bounded_partial (cfg : Cfg) (evs : List Ev) (h : eligible cf
     · rw [hrd] at x; cases x
     · obtain ⟨t, ht, hk⟩ := List.any_eq_true.mp x
       exact ⟨t, ht, by simpa using hk⟩
-  obtain ⟨tail, a, b, c, d⟩ := progress cfg (final cfg evs) (final_sinv cfg evs) hb h2 h3 h4 h5 h6
-  exact ⟨tail, a, b, c, by unfold final; rw [finalFrom_append]; exact d⟩
+  exact progress_drain_final cfg evs hb h2 h3 h4
+
+/-- … hence for every history in which no non-Kafka error escaped the join (the known finding F12)
+    the full-strength conclusion holds: started, not stopping, no `stop()` waiting ⇒ a failure-free
+    continuation of at most `6 + #consumers` events makes the member stable. -/
+theorem C17_rejoins_bounded_no_escape (cfg : Cfg) (evs : List Ev) (hne : noNonKafkaEscape evs = true)
+    (h2 : (final cfg evs).started = true) (h3 : (final cfg evs).stopping = false) (h4 : (final cfg evs).stopDraining = false) :
+    ∃ tail : List Ev, tail.all okEv = true ∧ tail.length ≤ 6 + (final cfg evs).cons.length ∧
+      (finalFrom cfg (final cfg evs) tail).rejoinNeeded = false := by
+  have hb : Busy (final cfg evs) := final_busy cfg evs (fun e he => by
+    have := List.all_eq_true.mp hne e he
+    simpa using this)
+  obtain ⟨tail, a, b, _, d⟩ := progress_drain_final cfg evs hb h2 h3 h4
+  exact ⟨tail, a, b, by unfold final at d; rwa [finalFrom_append] at d⟩
+
+/-- Bounded rejoin as a ∀-statement under fairness.  Take ANY history in which no non-Kafka error
+    escaped the join (finding F12) and after which the member is started, not stopping and no
+    `stop()` waits for consumers — including one in the middle of `on_join_prepare`.  Then for EVERY
+    failure-free continuation (`okEvF`: time passes, timers fire, requests are answered successfully,
+    shutdowns complete, heartbeats are acknowledged — in any order, with any reply contents,
+    interleaved with any number of events that are not enabled) in which the environment makes at
+    least `μ` OWED moves (`owedMove`: the reply to the outstanding request, the completion of an
+    awaited shutdown, the firing of the due rejoin / retry timer of a member with no join in flight),
+    the member is a stable member at the end; and `μ ≤ 7 + #consumers`. -/
+theorem C17_rejoins_fair (cfg : Cfg) (evs : List Ev) (hne : noNonKafkaEscape evs = true)
+    (h2 : (final cfg evs).started = true) (h3 : (final cfg evs).stopping = false) (h4 : (final cfg evs).stopDraining = false)
+    (tail : List Ev) (ha : tail.all okEvF = true) (hf : mu (final cfg evs) ≤ owedCount cfg (final cfg evs) tail) :
+    (finalFrom cfg (final cfg evs) tail).rejoinNeeded = false ∧ mu (final cfg evs) ≤ 7 + (final cfg evs).cons.length := by
+  have hb : Busy (final cfg evs) := final_busy cfg evs (fun e he => by
+    have := List.all_eq_true.mp hne e he
+    simpa using this)
+  have he := elig_final cfg evs hb h2 h3 h4
+  exact ⟨fair_reaches cfg _ he tail ha hf, mu_le _ he⟩
+
+/-- Non-vacuity of `C17_rejoins_fair`: from the state in the middle of `on_join_prepare` (`exDrain`
+    below: μ = 5) a continuation with an unanswerable event in between and the five owed moves. -/
+def exFairTail : List Ev :=
+  [.consumerDown 0 true, .hbDone .ok, .consumerDown 1 true, .joinDone (.ok 1 2 true 1), .advance 3, .partsDone .ok, .syncDone (.ok [(0, [1])])]
 
 /-- The excluded case is real: after `start` and a non-Kafka error on the coordinator look-up the
     member is started, not stopping, no stop is waiting — and NO failure-free continuation, of any
@@ -158,6 +235,16 @@ example : noNonKafkaEscape exFaults = true := by decide
 example : ((final exCfg exFaults).timers.map fun t => (t.id, t.kind)) = [(2, .rejoin)] := by decide +kernel
 
 example : eligible exCfg exFaults = true := by decide +kernel
+/-- a history that ends in the middle of `on_join_prepare` (two consumers draining for a rebalance) -/
+def exDrain : List Ev :=
+  [.start, .coordDone .ok, .metaDone .ok, .joinDone (.ok 1 1 false 0), .syncDone (.ok [(0, [0, 1])]),
+   .consumerErr 0 .rebalanceInProgress, .advance 1, .fire 1 none, .coordDone .ok, .metaDone .ok]
+example : (final exCfg exDrain).jpc = .prepare := by decide +kernel
+example : eligible exCfg exDrain = true := by decide +kernel
+example : noNonKafkaEscape exDrain = true := by decide
+example : exFairTail.all okEvF = true ∧ mu (final exCfg exDrain) = 5 ∧
+    mu (final exCfg exDrain) ≤ owedCount exCfg (final exCfg exDrain) exFairTail ∧
+    (final exCfg (exDrain ++ exFairTail)).rejoinNeeded = false := by decide +kernel
 example : eligible exCfg (exFaults ++ [.advance 1, .fire 2 none, .coordDone .ok]) = true := by decide +kernel
 
 end Afkak.Props.C17
@@ -173,12 +260,17 @@ C17_fatal_table
 C17_forgotten_member_resets
 C17_fatal_surfaces_on_replies
 C17_fresh_after_eviction
+C17_coordinator_refreshed
+C17_suspect_table
+C17_no_internal_error
 C17_rejoins_bounded_partial
+C17_rejoins_bounded_no_escape
+C17_rejoins_fair
 C17_rejoins_bounded_counterexample
+C17_join_progress
 -/
 /- OPEN_STATEMENTS
 C17_never_idle
 C17_fatal_surfaces
 C17_rejoins_bounded
-C17_join_progress
 -/
